@@ -177,6 +177,23 @@ pub fn dump() -> Value {
             wide!("lj_circle", PotentialState::from_group(LJShape2::circle(), &g).unwrap(), PotentialState<LJShape2>);
             wide!("lj_trimer", PotentialState::from_group(LJShape2::from_trimer(0.637556, 120., 1.), &g).unwrap(), PotentialState<LJShape2>);
         }
+        // ... and with the cell declared hexagonal / tetragonal (library / file states): only the length may move
+        {
+            macro_rules! fam {
+                ($name:expr, $st:expr, $t:ty, $fam:expr, $angle:expr) => {{
+                    let mut v = serde_json::to_value(&$st).unwrap();
+                    v["cell"]["family"] = json!($fam);
+                    v["cell"]["angle"] = json!($angle);
+                    v["cell"]["ratio"] = json!(1.0);
+                    let st: $t = serde_json::from_value(v).unwrap();
+                    states.insert(format!("{}@{}", $name, if $fam == "Hexagonal" { "hex" } else { "tet" }), probe_state(&st));
+                }};
+            }
+            fam!("hard_circle", PackedState::from_group(MolecularShape2::circle(), &g).unwrap(), PackedState<MolecularShape2>, "Hexagonal", std::f64::consts::FRAC_PI_3);
+            fam!("hard_circle", PackedState::from_group(MolecularShape2::circle(), &g).unwrap(), PackedState<MolecularShape2>, "Tetragonal", std::f64::consts::FRAC_PI_2);
+            fam!("lj_trimer", PotentialState::from_group(LJShape2::from_trimer(0.637556, 120., 1.), &g).unwrap(), PotentialState<LJShape2>, "Hexagonal", std::f64::consts::FRAC_PI_3);
+            fam!("lj_trimer", PotentialState::from_group(LJShape2::from_trimer(0.637556, 120., 1.), &g).unwrap(), PotentialState<LJShape2>, "Tetragonal", std::f64::consts::FRAC_PI_2);
+        }
         groups.push(json!({
             "cli": name, "name": g.name, "family": format!("{:?}", g.family),
             "ops_str": g.wyckoff_str, "ops": ops, "ops_error": err,
